@@ -97,7 +97,7 @@ def divmodR (a b : Int) : R (Int × Int) :=
 def gcd (a b : Int) : Int := ((Int.gcd a b : Nat) : Int)
 
 /-- `s.add(x)` on a set kept as the list of its members in insertion order -/
-def setAdd (s : List Int) (x : Int) : List Int := if s.contains x then s else s ++ [x]
+def setAdd {α} [BEq α] (s : List α) (x : α) : List α := if s.contains x then s else s ++ [x]
 
 /-- `datetime.date(y, m, d)`: the validated triple (`ValueError` outside the calendar) -/
 def mkDate (y m d : Int) : R (Int × Int × Int) :=
